@@ -145,6 +145,10 @@ func newPacketScanConfig(opts ...packetScanConfigOption) *packetScanConfig {
 }
 
 func startPortScanEngine(ctx context.Context, conf *packetScanConfig) error {
+	// no port ranges to split: ip/port pairs are taken from the file
+	if len(conf.scanRange.Ports) == 0 {
+		return startPacketScanEngine(ctx, conf)
+	}
 	// BPF filter doesn't accept large list of port ranges
 	chunkSize := 200
 	for i := 0; i < len(conf.scanRange.Ports); i += chunkSize {
